@@ -146,16 +146,21 @@ class Report:
             os.makedirs(os.path.join(ROOT, "replays"), exist_ok=True)
             shown = 0
             for (clause, feats), vs in groups.items():
+                if shown >= 25:
+                    shown += 1
+                    continue
                 v = vs[0]
                 h = hashlib.sha1(json.dumps([clause, feats, v["case"]], sort_keys=True, default=str).encode()).hexdigest()[:10]
                 path = os.path.join(ROOT, "replays", f"{self.prop}-{h}.json")
                 with open(path, "w") as f:
                     json.dump({"property": self.prop, "clause": clause, "features": list(feats), "detail": v["detail"],
                                "case": v["case"], "similar_cases": len(vs)}, f, indent=1, default=str)
-                if shown < 40:
+                if shown < 25:
                     print(f"VIOLATION property={self.prop} replay={path}")
                     print(f"   clause={clause} features={list(feats)} cases={len(vs)} :: {v['detail'][:300]}")
                 shown += 1
+            if shown > 25:
+                print(f"   ... {shown - 25} further violation groups not written (same run)")
             rc = 1
         if self.triage:
             self.print_triage()
